@@ -550,10 +550,26 @@ func runOp(doc int, op string) string {
 			fm, _, fmerr := open().ToMarkdown()
 			fx, _, fxerr := open().ExcludeHeaders().Text()
 			fn, fnerr := open().PageCount()
+			// ... and one with a page selection: what it selects is the same pages every time
+			sel := open().Pages(1)
+			if fn >= 3 {
+				sel = open().Pages(3, 2)
+			}
+			s1, _, serr1 := sel.Text()
+			s2, _, serr2 := sel.Text()
+			s3, _, serr3 := sel.ExcludeFooters().Text()
+			fs, _, fserr := open().Pages(1).Text()
+			fsx, _, fsxerr := open().Pages(1).ExcludeFooters().Text()
+			if fn >= 3 {
+				fs, _, fserr = open().Pages(3, 2).Text()
+				fsx, _, fsxerr = open().Pages(3, 2).ExcludeFooters().Text()
+			}
 			same := func(a, b string, ea, eb error) bool { return a == b && fmt.Sprint(ea) == fmt.Sprint(eb) }
 			fmt.Fprintf(&sb, "text err=%v len=%d pages=%d\nsecond Text: equal=%v, ToMarkdown after Text: equal=%v, derived ExcludeHeaders().Text(): equal=%v, PageCount: equal=%v, Text after Close: equal=%v",
 				err1, len(t1), n, same(t2, ft, err2, ferr) && same(t1, ft, err1, ferr), same(m1, fm, errm, fmerr), same(t3, fx, err3, fxerr),
 				n == fn && fmt.Sprint(errn) == fmt.Sprint(fnerr), same(t4, ft, err4, ferr))
+			fmt.Fprintf(&sb, ", a page selection asked twice: equal=%v, derived from it after use: equal=%v",
+				same(s1, fs, serr1, fserr) && same(s2, fs, serr2, fserr), same(s3, fsx, serr3, fsxerr))
 		}()
 		return sb.String()
 	case "extractorreuse":
